@@ -25,6 +25,7 @@ import (
 
 	"verif/harness/internal/prog"
 	"verif/harness/internal/render"
+	"verif/harness/internal/sched"
 )
 
 // Rec is one line of the observation log.  All fields are always present.
@@ -103,6 +104,10 @@ type Options struct {
 	// EarlyWait: call WaitUntilComplete (1 ms) the moment StartAll has returned, when the
 	// schedule shows that a task request must be answered before the instance can complete
 	EarlyWait bool
+	// EagerDeliver: an event is delivered as soon as the catch events IT addresses listen,
+	// without waiting for the other catch events to be armed (the winner of an event-based
+	// gateway is then determined while the other alternatives are still on their way)
+	EagerDeliver bool
 }
 
 func DefaultOptions() Options {
@@ -192,6 +197,7 @@ func (r *runner) observe(tr tracing.ITrace) {
 		r.bump("req:" + id)
 	case bpmn.VisitTrace:
 		r.add(Rec{Ev: "visit", Node: nodeId(t.Node)})
+		r.bump("visit:" + nodeId(t.Node))
 	case bpmn.LeaveTrace:
 		r.add(Rec{Ev: "leave", Node: nodeId(t.Node)})
 	case bpmn.NewFlowTrace:
@@ -406,6 +412,17 @@ func Run(runIdx int, p *prog.Program, sch *Schedule, o Options) []Rec {
 	}
 	ch := make(chan tracing.ITrace, 8192)
 	inst.Tracer().SubscribeChannel(ch)
+	// scheduling aid (never a verdict): a token has registered at a catch event
+	sched.SetObserver(func(point string, args ...any) {
+		if point == "catch.arm" && len(args) > 0 {
+			if id := elemId(args[0]); id != "" {
+				r.mu.Lock()
+				r.bump("arm:" + id)
+				r.mu.Unlock()
+			}
+		}
+	})
+	defer sched.SetObserver(nil)
 	var seq1, seq2 []string
 	var seqMu sync.Mutex
 	var ch2 chan tracing.ITrace
@@ -471,7 +488,42 @@ func Run(runIdx int, p *prog.Program, sch *Schedule, o Options) []Rec {
 	if startOK {
 		for i := range sch.Steps {
 			st := &sch.Steps[i]
-			if miss, ok := r.waitPre(st.Pre, o.T); !ok {
+			pre := st.Pre
+			if o.EagerDeliver && st.Op == "deliver" {
+				pre = map[string]int{}
+				for k, v := range st.Pre {
+					if strings.HasPrefix(k, "listen:") || strings.HasPrefix(k, "arm:") || strings.HasPrefix(k, "visit:") {
+						addressed := false
+						if n := p.Node(k[strings.Index(k, ":")+1:]); n != nil {
+							for _, e := range n.Evs {
+								if e.K == st.Kind && e.Ref == st.Node {
+									addressed = true
+								}
+							}
+						}
+						if !addressed {
+							continue
+						}
+					}
+					pre[k] = v
+				}
+			}
+			// "arm:" counters are known through a hook only: wait for them briefly and go on
+			// regardless; a delivery that could not be synchronised is recorded as racy
+			soft := map[string]int{}
+			hard := map[string]int{}
+			for k, v := range pre {
+				if strings.HasPrefix(k, "arm:") {
+					if st.Op == "deliver" || st.Op == "deliverc" {
+						soft[k] = v
+					}
+				} else {
+					hard[k] = v
+				}
+			}
+			pre = hard
+			unsynced := false
+			if miss, ok := r.waitPre(pre, o.T); !ok {
 				r.mu.Lock()
 				r.add(Rec{Ev: "timeout", Kind: miss, N: i})
 				r.mu.Unlock()
@@ -485,10 +537,19 @@ func Run(runIdx int, p *prog.Program, sch *Schedule, o Options) []Rec {
 				}
 				break
 			}
+			if len(soft) > 0 && !o.EagerDeliver {
+				if _, ok := r.waitPre(soft, 400*time.Millisecond); !ok {
+					unsynced = true
+				}
+			}
 			if o.Linger > 0 {
 				time.Sleep(o.Linger)
 			}
-			if !r.perform(ctx, cancel, inst, st, o, rng) {
+			po := o
+			if unsynced {
+				po.EagerDeliver = true // recorded as a racy delivery
+			}
+			if !r.perform(ctx, cancel, inst, st, po, rng) {
 				aborted = true
 				break
 			}
@@ -680,7 +741,12 @@ func (r *runner) perform(ctx context.Context, cancel context.CancelFunc, inst *b
 		}
 	case "deliver":
 		r.mu.Lock()
-		r.add(Rec{Ev: "deliver", Kind: st.Kind, Node: st.Node})
+		if o.EagerDeliver {
+			// not synchronised with the tokens still on their way: may be seen either way there
+			r.add(Rec{Ev: "deliverx", Kind: st.Kind, Node: st.Node})
+		} else {
+			r.add(Rec{Ev: "deliver", Kind: st.Kind, Node: st.Node})
+		}
 		r.mu.Unlock()
 		var ev event.IEvent
 		if st.Kind == "message" {
